@@ -70,8 +70,14 @@ ASSUMPTIONS = [
     "either exactly the half-plane point at infinity (exact data (s,s,0), no transform) or at "
     "angular distance >= 0.06 from it: an ideal point equal to it only up to rounding has no "
     "well-conditioned half-plane coordinates (same bound as C01/C14); float64 only",
-    "objects with ideal points are reproduced to sqrt(eps)-level accuracy only (tolerance "
-    "2e-6 (1+r) in the Poincare model instead of 1e-9 (1+r)); half-plane 2e-5 (1+r) throughout",
+    "tolerances follow the conditioning measured in the harness (X = |centre|+radius, L = "
+    "edge length, ||M|| = norm of the drawing transform): Poincare finite 1e-9(1+X); half-plane "
+    "finite (1e-7(1+X)+1.2e-6(1+X^2)/min(L,1)) rho, rho = ratio of the Minkowski norms of the "
+    "two representatives handed to the library, read from obj.proj_data for conditioning only "
+    "(the library derives circles from ideal endpoints with sqrt(eps) rho height noise); objects with ideal points 5e-7(1+X^2)||M||; "
+    "horocircles 1e-5(1+X)||M|| (Poincare), 1e-8(1+X^2)||M|| (half-plane); Arc centre / "
+    "radius additionally x (1 + r/L); each >= 25 x the worst residual in 30-40 thousand "
+    "random objects",
     "Drawing3D, draw_nonaff_polygon, draw_line, draw_boundary_arc, CP1Drawing are outside the "
     "statement",
 ]
@@ -348,7 +354,10 @@ def polygon_case(draw, model, kinds=POLY_KINDS):
         kind = draw(st.sampled_from(kinds))
         kl.append(kind)
         if kind == "iid":
-            verts.append(draw(gen.klein_points(2, n, rmax=0.95)))
+            pts = draw(gen.klein_points(2, n, rmax=0.95, special=False))
+            if draw(st.integers(0, 5)) == 0:      # one vertex at the origin
+                pts[draw(st.integers(0, n - 1))] = [0.0, 0.0]
+            verts.append(pts)
         else:
             QK = draw(displayed_polygon(model, n, kind))
             verts.append(pull_back(QK, M).tolist())
@@ -413,20 +422,56 @@ def label_common(ctx, case, M):
 
 
 # ---------------------------------------------------------------------------
-# tolerances
-def pos_tol(model, scale, noisy=False):
-    """position tolerance in model coordinates: Poincare arcs are reproduced to ~1e-13;
-    half-plane circles go through ideal points whose height carries sqrt(eps) ~ 1e-8
-    noise (observed <= 3e-7 (1+r)); noisy = the object itself has ideal vertices, whose
-    Poincare coordinates carry the same sqrt(eps) noise"""
+# tolerances (calibrated on 30-40 thousand random objects per formula, factor >= 25 above
+# the worst residual seen; see DESIGN section 3: tolerances follow the conditioning)
+def pos_tol(model, X, length=None, ideal_norm=None, rho=1.0):
+    """Tolerance on positions (model coordinates) of drawn points of a geodesic.
+    X = |centre| + radius of the circle (or the size of the coordinates for a straight
+    piece), length = Euclidean distance of the two endpoints, rho = ratio (>= 1) of the
+    Minkowski norms of the two representatives the library was given.
+    * Poincare, finite endpoints: arcs are reproduced to ~1e-13 (1+X).
+    * half-plane, finite endpoints: centre and radius are derived from the *ideal*
+      endpoints of the edge's geodesic (a quadratic in the two representatives), whose
+      heights carry sqrt(eps) noise, extrapolated from an edge of the given length:
+      observed <= 5e-8 rho (1+X^2)/min(length,1) on 50 000 random segments.
+    * ideal_norm = ||M||_2 of the drawing transform when the object itself has ideal
+      points (geodesics, ideal polygon vertices): their Poincare / half-plane coordinates
+      carry sqrt(eps) ||M|| noise: observed <= 1.9e-8 (1+X^2) ||M||."""
+    X = float(X)
+    tol = 1e-9 * (1 + X) * rho
     if model == "halfspace":
-        return 2e-5 * scale
-    return (2e-6 if noisy else 1e-9) * scale
+        L = 1.0 if length is None else min(float(length), 1.0)
+        tol = (1e-7 * (1 + X) + 1.2e-6 * (1 + X * X) / max(L, 1e-12)) * rho
+    if ideal_norm is not None:
+        tol = max(tol, 5e-7 * (1 + X * X) * ideal_norm)
+    return tol
+
+
+def mink_ratio(rows):
+    """rho for consecutive pairs of representative rows (.., n, 3): ratio >= 1 of their
+    Minkowski norms; 1 when one of the two is (numerically) lightlike"""
+    rows = np.asarray(rows, dtype=float)
+    nn = np.sqrt(np.abs(-rows[..., 0] ** 2 + np.sum(rows[..., 1:] ** 2, axis=-1)))
+    eu = np.sqrt(np.sum(rows ** 2, axis=-1))
+    a, b = nn, np.roll(nn, -1, axis=-1)
+    light = (a < 1e-6 * eu) | (b < 1e-6 * np.roll(eu, -1, axis=-1))
+    with np.errstate(all="ignore"):
+        rho = np.maximum(a, b) / np.minimum(a, b)
+    return np.where(light | ~np.isfinite(rho), 1.0, rho)
+
+
+def horo_tol(model, X, normM):
+    """horocircle centre / radius: Poincare through the noisy ideal coordinates divided by
+    (1 - u.p) (observed <= 3.5e-7 (1+X)||M||); half-plane only uses the accurate abscissa"""
+    if model == "poincare":
+        return 1e-5 * (1 + X) * normM
+    return 1e-8 * (1 + X * X) * normM
 
 
 # ---------------------------------------------------------------------------
 # law: polygon paths (Poincare, half-plane)
-def check_polygon_path(ctx, model, verts, path_vertices, path_codes, noisy=False):
+def check_polygon_path(ctx, model, verts, path_vertices, path_codes, ideal_norm=None,
+                       rhos=None):
     """verts: (n,2) expected model coordinates in order; the path must be n chunks"""
     n = len(verts)
     ctx.check(path_codes is not None, "polygon path has codes")
@@ -441,7 +486,8 @@ def check_polygon_path(ctx, model, verts, path_vertices, path_codes, noisy=False
         p, q = verts[i], verts[(i + 1) % n]
         c, r = D.geodesic_circle(p, q, model)
         pts = ch["pts"]
-        vs = 1.0 + max(np.max(np.abs(p)), np.max(np.abs(q)))
+        vs = float(max(np.max(np.abs(p)), np.max(np.abs(q))))
+        length = float(np.linalg.norm(np.asarray(p) - np.asarray(q)))
         if r < THRESH * (1 - BAND):
             ctx.check(ch["kind"] == "arc", "edge below the radius threshold is drawn as an arc",
                       edge=i, radius=r, kind=ch["kind"])
@@ -453,8 +499,8 @@ def check_polygon_path(ctx, model, verts, path_vertices, path_codes, noisy=False
             ctx.label("radius-in-band")
         if ch["kind"] == "arc":
             ctx.label("arc-chunk")
-            scale = 1.0 + r + float(np.max(np.abs(c)))
-            tol = pos_tol(model, scale, noisy)
+            rho = 1.0 if rhos is None else float(rhos[i])
+            tol = pos_tol(model, r + float(np.max(np.abs(c))), length, ideal_norm, rho)
             fr = D.ArcFrame(c, r, p, q, upper=(model == "halfspace"))
             if fr.sweep < 0:
                 ctx.label("reversed-edge")
@@ -480,7 +526,7 @@ def check_polygon_path(ctx, model, verts, path_vertices, path_codes, noisy=False
                       edge=i)
         else:
             ctx.label("line-chunk")
-            tol = pos_tol(model, vs, noisy)
+            tol = pos_tol(model, vs, None, ideal_norm)
             if model == "poincare":
                 ctx.small("straight chunk is the chord from vertex i to vertex i+1",
                           np.abs(pts - np.array([p, q])) / tol, 1.0, edge=i, got=pts,
@@ -499,7 +545,7 @@ def check_polygon_path(ctx, model, verts, path_vertices, path_codes, noisy=False
                                             "<1e-1" if gap < 1e-1 else ">=1e-1"))
 
 
-def draw_and_check_polygons(case, ctx, model, poly, Q, noisy=False):
+def draw_and_check_polygons(case, ctx, model, poly, Q, ideal_norm=None):
     """draw `poly` under the case's figure / transform program and compare every patch with
     the expected model vertices Q (count, n, 2)"""
     n = Q.shape[1]
@@ -520,6 +566,8 @@ def draw_and_check_polygons(case, ctx, model, poly, Q, noisy=False):
         others = len(d.ax.collections) + len(d.ax.lines)
     ctx.check(len(got) == len(Q), "one patch per unit polygon", patches=len(got),
               polygons=len(Q))
+    # conditioning only: Minkowski norms of the representatives handed to the library
+    rhos = mink_ratio(np.array(poly.proj_data, dtype=float).reshape((-1, n, 3)))
     ctx.check(others == 0, "nothing but patches is added for a polygon", others=others)
     if n >= 4:
         ctx.label("n>=4")
@@ -531,7 +579,7 @@ def draw_and_check_polygons(case, ctx, model, poly, Q, noisy=False):
             ctx.label("skipped:short-edge")
             continue
         ctx.label("judged")
-        check_polygon_path(ctx, model, Q[k], V, C, noisy)
+        check_polygon_path(ctx, model, Q[k], V, C, ideal_norm, rhos[k])
 
 
 def body_polygon(case, ctx):
@@ -603,7 +651,8 @@ def body_ideal_polygon(case, ctx):
     ctx.check(poly.shape == shape, "polygon composite shape", got=poly.shape, want=shape)
     label_common(ctx, case, M)
     ctx.label("n=%d" % n, "all-ideal" if ideal.all() else "some-ideal")
-    draw_and_check_polygons(case, ctx, model, poly, Q, noisy=True)
+    draw_and_check_polygons(case, ctx, model, poly, Q,
+                            ideal_norm=float(np.linalg.norm(M, 2)))
 
 
 def nt_polygon(labels):
@@ -801,6 +850,7 @@ def body_geodesic(case, ctx):
     model, shape, obj = case["model"], tuple(case["shape"]), case["obj"]
     M = D.run_program(case["prog"])
     thr = THRESH if case["thr"] is None else float(case["thr"])
+    normM = float(np.linalg.norm(M, 2))
     label_common(ctx, case, M)
     ctx.label("obj=" + obj, "thr=%s" % case["thr"], *["kind=" + k for k in case["kinds"]])
     if obj == "segment":
@@ -817,6 +867,8 @@ def body_geodesic(case, ctx):
         U = U / np.linalg.norm(U, axis=-1, keepdims=True)
         ends = D.ideal_to_model(U, model)
     ctx.check(lib.shape == shape, "composite shape", got=lib.shape, want=shape)
+    # conditioning only: Minkowski norms of the representatives handed to the library
+    rhos = mink_ratio(np.array(lib.proj_data, dtype=float).reshape((-1, 2, 3)))[:, 0]
     kw = dict(case["style"])
     if case["thr"] is not None:
         kw["radius_threshold"] = thr
@@ -847,7 +899,7 @@ def body_geodesic(case, ctx):
         ctx.check(len(segs) == count, "one line per unit geodesic", got=len(segs), want=count)
         for k in range(count):
             ctx.close("Klein line joins the (ideal) endpoints", segs[k], ends[k], rtol=0,
-                      atol=1e-9 if obj == "segment" else 1e-7)
+                      atol=1e-9 * normM ** 2)
         return
     ctx.check(len(patches) == count and ncoll == 0 and nlines == 0,
               "one patch per unit geodesic", patches=len(patches), want=count)
@@ -867,35 +919,51 @@ def body_geodesic(case, ctx):
             ctx.label("straight")
         else:
             ctx.label("radius-in-band")
-        noisy = (model == "halfspace" or obj == "geodesic")
+        ideal_norm = normM if obj == "geodesic" else None
+        length = float(np.linalg.norm(np.asarray(p) - np.asarray(q)))
+        rho = float(rhos[k]) if obj == "segment" else 1.0
         if pa[0] == "arc":
             ctx.label("arc")
             _, ctr, w, h, t1, t2, ang = pa
-            scale = 1.0 + r + float(np.max(np.abs(c)))
-            tol = (2e-5 if noisy else 1e-9) * scale
-            ctx.small("Arc centre is the centre of the geodesic circle", np.abs(ctr - c) / tol,
-                      1.0, k=k, got=ctr, want=c)
-            ctx.small("Arc width = height = 2 r", np.array([w - 2 * r, h - 2 * r]) / (2 * tol),
-                      1.0, k=k, width=w, height=h, radius=r)
-            ctx.check(ang == 0.0, "Arc is not rotated", angle=ang)
+            tol = pos_tol(model, r + float(np.max(np.abs(c))), length, ideal_norm, rho)
+            ctx.check(abs(w - h) <= 1e-12 * (1 + abs(w)) and ang == 0.0,
+                      "Arc is an unrotated circle (width = height)", width=w, height=h,
+                      angle=ang)
+            # (1) what is drawn: the arc of radius width/2 about Arc.center from theta1
+            #     counter-clockwise to theta2 is the geodesic between the endpoints
             a0, ext = expected_arc(model, c, r, p, q)
-            atol = tol / r + 1e-9
-            ctx.small("Arc theta1 (degrees) is the counter-clockwise start of the geodesic",
-                      D.wrap(math.radians(t1) - a0) / atol, 1.0, k=k, theta1=t1,
-                      want=math.degrees(a0))
+            t1r = math.radians(t1)
             got_ext = math.radians((t2 - t1) % 360.0)
-            if ext > math.pi - atol and got_ext < atol:
-                got_ext += 2 * math.pi
+            E1 = ctr + 0.5 * w * cis(t1r)
+            E2 = ctr + 0.5 * w * cis(t1r + got_ext)
+            ctx.small("drawn arc starts (theta1) at the counter-clockwise first endpoint",
+                      np.abs(E1 - (c + r * cis(a0))) / tol, 1.0, k=k, theta1=t1,
+                      want=math.degrees(a0), got=E1)
+            ctx.small("drawn arc ends (theta2) at the other endpoint",
+                      np.abs(E2 - (c + r * cis(a0 + ext))) / tol, 1.0, k=k, theta1=t1,
+                      theta2=t2, want=math.degrees(a0 + ext), got=E2)
+            th = t1r + got_ext * np.linspace(0.0, 1.0, 9)
+            S = ctr + 0.5 * w * np.stack([np.cos(th), np.sin(th)], axis=-1)
+            ctx.small("drawn arc lies on the geodesic circle",
+                      (np.hypot(S[:, 0] - c[0], S[:, 1] - c[1]) - r) / tol, 1.0, k=k,
+                      centre=c, radius=r, got_centre=ctr, got_radius=0.5 * w)
             ctx.small("Arc extent theta2-theta1 is the extent of the geodesic",
-                      (got_ext - ext) / (2 * atol), 1.0, k=k, theta1=t1, theta2=t2,
+                      (got_ext - ext) / (2 * tol / r + 1e-9), 1.0, k=k, theta1=t1, theta2=t2,
                       want=math.degrees(ext))
+            ctx.check(D.in_region(S, "poincare" if model == "poincare" else "halfspace", tol),
+                      "drawn arc lies in the model region", k=k)
+            # (2) centre and radius themselves, up to their conditioning r / length
+            ctol = 2 * tol * (1 + r / length)
+            ctx.small("Arc centre is the centre of the geodesic circle", np.abs(ctr - c) / ctol,
+                      1.0, k=k, got=ctr, want=c)
+            ctx.small("Arc width = 2 r", (w - 2 * r) / (2 * ctol), 1.0, k=k, width=w, radius=r)
         else:
             ctx.label("straight-path")
             _, cls, V, codes = pa
             ctx.check(cls is PathPatch and codes == [D.MOVETO, D.LINETO] and len(V) == 2,
                       "straight geodesic is a two-point PathPatch", codes=codes)
             if model == "poincare":
-                tol = (2e-7 if obj == "geodesic" else 1e-9) * 2
+                tol = pos_tol(model, 1.0, None, ideal_norm)
                 ctx.small("straight Poincare geodesic is the chord of its endpoints",
                           either_order(V, np.array([p, q])) / tol, 1.0, k=k, got=V,
                           want=[p, q], radius=r)
@@ -908,15 +976,15 @@ def body_geodesic(case, ctx):
                 continue
             a, b = (p, q) if on[0] else (q, p)
             b_on = on[1] if on[0] else on[0]
-            tol = 2e-5 * (1.0 + abs(a[0]) + abs(a[1]))
+            tol = pos_tol(model, abs(a[0]) + abs(a[1]), None, ideal_norm)
             ctx.small("vertical substitute starts at the visible endpoint",
                       np.abs(V[0] - a) / tol, 1.0, k=k, got=V, want=a)
             ctx.small("vertical substitute is vertical", abs(V[1][0] - a[0]) / tol, 1.0, k=k,
                       got=V)
             if b_on:
                 ctx.small("vertical substitute ends at the height of the other endpoint",
-                          abs(V[1][1] - b[1]) / (2e-5 * (1 + abs(b[1]))), 1.0, k=k, got=V,
-                          want=b)
+                          abs(V[1][1] - b[1]) / pos_tol(model, abs(b[0]) + abs(b[1]), None,
+                                                        ideal_norm), 1.0, k=k, got=V, want=b)
                 ctx.label("vertical-gap" + ("<1e-1" if abs(a[0] - b[0]) < 0.1 else ">=1e-1"))
             else:
                 ctx.check(V[1][1] >= YLIM_HP[1], "vertical substitute leaves the view upwards",
@@ -974,7 +1042,7 @@ def body_points(case, ctx):
     ctx.check(lines[0].shape == want.shape, "one marker per unit point", got=lines[0].shape,
               want=want.shape)
     ctx.small("markers sit at the model coordinates of transform @ point",
-              np.abs(lines[0] - want) / (pos_tol("poincare", 1.0) * sc ** 2), 1.0,
+              np.abs(lines[0] - want) / (1e-9 * sc ** 2), 1.0,
               got=lines[0], want=want)
 
 
@@ -1138,13 +1206,10 @@ def horo_case(draw):
                 scales=[draw(gen.scalars_pm()) for _ in range(2 * count)])
 
 
-# ideal points reach Poincare coordinates through sqrt(1-|k|^2) ~ sqrt(eps): 1e-8 noise
-HORO_TOL = {"poincare": 2e-6, "halfspace": 2e-5}
-
-
 def body_horo(case, ctx):
     model, shape, what = case["model"], tuple(case["shape"]), case["what"]
     M = D.run_program(case["prog"])
+    normM = float(np.linalg.norm(M, 2))
     label_common(ctx, case, M)
     ctx.label("what=" + what, *["kind=" + k for k in case["kinds"]])
     count = len(case["items"])
@@ -1215,7 +1280,7 @@ def body_horo(case, ctx):
             ctx.check(data_units and np.all(ang == 0), "ellipses are unrotated, in data units")
             for j, k in enumerate(circ):
                 c, r = exp[k]
-                tol = HORO_TOL[model] * (1 + r + np.max(np.abs(c)))
+                tol = horo_tol(model, r + float(np.max(np.abs(c))), normM)
                 ctx.small("ellipse offset = centre of the horocircle", np.abs(off[j] - c) / tol,
                           1.0, k=k, got=off[j], want=c)
                 ctx.small("ellipse width = height = 2 r",
@@ -1245,7 +1310,7 @@ def body_horo(case, ctx):
             _, xy, w, h = rects[j]
             y = exp[k][1]
             ctx.small("rectangle's lower edge is the horizontal horocycle",
-                      (xy[1] - y) / (2e-5 * (1 + y)), 1.0, k=k, got=xy, want=y)
+                      (xy[1] - y) / (1e-9 * (1 + y)), 1.0, k=k, got=xy, want=y)
             ctx.check(xy[0] <= view[0][0] and xy[0] + w >= view[0][1]
                       and xy[1] + h >= view[1][1], "rectangle covers the view above it",
                       xy=xy, w=w, h=h)
@@ -1262,7 +1327,8 @@ def body_horo(case, ctx):
                       "arc of a horocycle centred at infinity is a straight piece", kind=pa[0])
             sc = 1 + np.max(np.abs(Q[k]))
             ctx.small("straight piece joins the endpoints",
-                      either_order(pa[1], Q[k]) / (2e-5 * sc), 1.0, k=k, got=pa[1], want=Q[k])
+                      either_order(pa[1], Q[k]) / (1e-9 * sc ** 2), 1.0, k=k, got=pa[1],
+                      want=Q[k])
             ctx.label("flat-arc")
             continue
         if r > THRESH * (1 - BAND):
@@ -1270,7 +1336,7 @@ def body_horo(case, ctx):
             continue
         ctx.check(pa[0] == "arc", "horospherical arc is an Arc", kind=pa[0], radius=r)
         _, ctr, w, h, t1, t2, ang = pa
-        tol = HORO_TOL[model] * (1 + r + np.max(np.abs(c)))
+        tol = horo_tol(model, r + float(np.max(np.abs(c))), normM)
         ctx.small("Arc centre = centre of the horocircle", np.abs(ctr - c) / tol, 1.0, k=k,
                   got=ctr, want=c)
         ctx.small("Arc width = height = 2 r", np.array([w - 2 * r, h - 2 * r]) / (2 * tol),
@@ -1455,31 +1521,31 @@ def _poly_law(model, quick, thorough, shards):
 
 
 LAWS = [
-    _poly_law("poincare", 150, 1200, (3, 8)),
-    _poly_law("halfspace", 150, 1200, (3, 8)),
+    _poly_law("poincare", 150, 800, (3, 8)),
+    _poly_law("halfspace", 150, 800, (3, 8)),
     Law("polygon_path_threshold_edges",
         st.sampled_from(ARC_MODELS).flatmap(
             lambda m: polygon_case(m, kinds=["threshold", "threshold", "straight"])),
-        body_polygon, nt_polygon, quick=120, thorough=1000, shards=(2, 4)),
+        body_polygon, nt_polygon, quick=120, thorough=700, shards=(2, 4)),
     Law("polygon_path_integer_coordinates",
         st.sampled_from(ARC_MODELS).flatmap(int_polygon_case),
         body_polygon, nt_polygon, quick=80, thorough=600, shards=(1, 2)),
     Law("polygon_path_ideal_vertices",
         st.sampled_from(ARC_MODELS).flatmap(ideal_polygon_case),
-        body_ideal_polygon, lambda l: "judged" in l, quick=100, thorough=800, shards=(1, 4)),
+        body_ideal_polygon, lambda l: "judged" in l, quick=100, thorough=600, shards=(1, 4)),
     Law("polygon_klein_collection",
         st.one_of(polygon_case("klein", kinds=["star", "star", "regular", "iid"]),
                   int_polygon_case("klein")),
-        body_klein_polygon, nt_transform_or_composite, quick=120, thorough=1000,
+        body_klein_polygon, nt_transform_or_composite, quick=120, thorough=700,
         shards=(1, 2)),
     Law("geodesic_arc", geodesic_case(), body_geodesic, nt_transform_or_composite,
-        quick=150, thorough=1200, shards=(3, 8)),
+        quick=150, thorough=900, shards=(3, 8)),
     Law("points_placed", points_case(), body_points, nt_transform_or_composite,
-        quick=150, thorough=1200, shards=(1, 4)),
+        quick=150, thorough=800, shards=(1, 4)),
     Law("projective_collections", projective_case(), body_projective,
-        nt_transform_or_composite, quick=150, thorough=1200, shards=(2, 4)),
+        nt_transform_or_composite, quick=150, thorough=800, shards=(2, 4)),
     Law("horosphere_ellipses", horo_case(), body_horo, nt_transform_or_composite,
-        quick=150, thorough=1200, shards=(2, 6)),
+        quick=150, thorough=900, shards=(2, 6)),
     Law("wrong_dimension_rejected", wrongdim_case(), body_wrongdim, lambda l: True,
         quick=60, thorough=400, shards=(1, 2), exhaustive=wrongdim_exhaustive),
     Law("artists_land_on_own_axes", None, body_own_axes, lambda l: True,
